@@ -21,6 +21,18 @@ pieces still yield their obligations, the failing-input search of the check runs
  C17Reset        unconditional attribute resets at the start of `optimize()` of GoalProgrammingMixin,
                  SinglePassGoalProgrammingMixin, MinAbsGoalProgrammingMixin
                  -> `C17.gpmReset`, `C17.singlePassReset`, `C17.minAbsReset`
+ C17OptRead      WHEN the options of the retained objective row are read (`gen_optread`):
+                 `SinglePassGoalProgrammingMixin.optimize` (the snapshot `self.__objective_constraint_options = ..`
+                 between `super().optimize(..)` and `self.priority_completed(priority)` of the same loop body) +
+                 `transcribe` (uses the snapshot); `GoalProgrammingMixin.optimize` (call of
+                 `__add_subproblem_objective_constraint` after `priority_started` / the solve of the same loop body)
+                 + `__add_subproblem_objective_constraint` (reads `self.goal_programming_options()` itself)
+                 -> `C17.singlePassOptRead`, `C17.keepSoftOptRead`
+ C17Caching      single_pass_goal_programming_mixin.py, class `CachingQPSol` (`gen_caching`):
+                 `CachingQPSol.__init__` (initial `_tlcache`), the inner `Solver.__init__` (extraction of H, c,
+                 f(0), A, b; the `_tlcache` logic: dimension guard, re-use, appended rows, store),
+                 `Solver.__call__` (the dict handed to the conic back-end, the reported objective)
+                 -> `C17.construct`, `C17.call`, `C17.report`, initial cache `none`
 
 CLOSED table  Python construct -> model term   (library calls are table entries: trusted mapping)
   orig_goal.size / .weight / .relaxation / .function_nominal / .priority -> g.size / g.weight / g.relaxation / g.nominal / g.priority
@@ -49,6 +61,42 @@ CLOSED table  Python construct -> model term   (library calls are table entries:
   options["fix_minimized_values"], options["constraint_relaxation"] -> fix, cr
   obj_val, -np.inf, np.inf                              -> .fin v, .ninf, .pinf ;  obj_val += e  ->  v + e
   self.linear_collocation = .. / self.check_collocation_linearity = ..  -> (solver hints, no model term)
+  --- reading point of the objective-row options (loop body of optimize(), statements in order)
+  self.priority_started(priority) .. success = super().optimize(..) ..
+     options = self.goal_programming_options();
+     self.__objective_constraint_options = {k: v for k, v in options.items() if k in {"fix_minimized_values", "constraint_relaxation"}}
+     (.. self.priority_completed(priority)), and in transcribe(): options = self.__objective_constraint_options
+                                                          -> .ownPriority
+  transcribe(): options = self.goal_programming_options() under `if self.__current_priority > 0:`  -> .nextPriority
+  keep-soft: self.priority_started(priority) .. self.__add_subproblem_objective_constraint() in the same loop body,
+     and options = self.goal_programming_options() inside it  -> .ownPriority
+  --- CachingQPSol (symbolic CasADi expressions are modelled by their normal forms: objective
+      Σ Q_ij x_i x_j + c·x + k, constraint rows a·x + b; `ch` = the filled `_tlcache`)
+  self._tlcache = {}  (CachingQPSol.__init__)             -> initial cache `none`
+  Solver.__init__ default `cache=self._tlcache`           -> the cache argument / result of `construct`
+  x = nlp["x"]; f = nlp["f"]; g = nlp["g"]                -> p.n, p.f, p.g
+  if isinstance(x, ca.MX): x = ca.SX.sym("X", *x.shape); x_mx = nlp["x"]; expand = True
+  else: x_mx = None; expand = False                       -> (same normal form: no model term)
+  if expand: F = ca.Function("f", [x_mx], [E]).expand(); E = F(x)   -> E unchanged (same normal form)
+  ca.gradient(f, x)                                       -> C17.gradient x f
+  ca.substitute(E, x, ca.DM.zeros(x.sparsity()))          -> C17.affAtZero E (rows) / C17.quadAtZero E (objective)
+  ca.jacobian(E, x) / ca.jacobian(E, x, {"symmetric": True})  -> C17.jacobian x E
+  if cache: .. else: ..                                   -> match cache with | some ch => .. | none => ..
+  cache["A"], cache["b"] (read)                           -> ch.A, ch.b
+  M.size1() / M.size2() (matrix), g.size1() (rows), x.size1() -> M.rows.length / M.ncol, g.length, x
+  if not a == b: raise Exception(..)                      -> if !(a == b) then .error .. else <rest>
+  if a == b: .. else: ..  (sizes)                         -> if a == b then .. else ..
+  g[k:]                                                   -> g.drop k
+  ca.vertcat(u, v)                                        -> C17.vcatVec u v (vectors) / C17.vcatMat u v (matrices)
+  cache["A"] = A; cache["b"] = b                          -> cache after: { A := A, b := b }
+  self._solver = ca.conic(_, solver_name, {"h": H.sparsity(), "a": A.sparsity()}, options)
+                                                          -> (H, A must be the matrices stored under "h", "a")
+  self._solver_in = {}; self._solver_in[k] = ca.DM(V)  (k in h, g, a) -> sin := { k := some V }
+  self._b = ca.DM(b); self._f0 = ca.DM(f0)                -> b := b, f0 := f0
+  Solver.__call__: self._solver_in[k] = ARG  (k in x0, lbx, ubx, lba, uba) -> { d with k := some i.ARG }
+  ARG - self._b                                           -> C17.subVec i.ARG s.b, raising unless ARG.length == s.b.length
+  solver_out = self._solver(**self._solver_in)            -> the dict is what the back-end receives
+  solver_out["f"] = solver_out["cost"] + self._f0         -> cost + s.f0
   self.X = [] | {} | [[] for m in range(self.ensemble_size)] | [OrderedDict() for m in range(self.ensemble_size)]
            | True | False | 0 | None   (top level of optimize(), before the first loop / super().optimize)
                                                         -> ("X", emptyList | emptyDict | perMember | flag b | zero | none)
@@ -682,6 +730,532 @@ end RtcVerif.Gen
 """ % defs
     _write("C17Reset", text)
     return ("RtcVerif.Gen.C17Reset", "RtcVerif.Gen", [n + "_eq_model" for n, _, _ in parts])
+
+
+# ---------------------------------------------------------------------------------------------
+# CachingQPSol
+
+
+def _d(src):
+    return ast.dump(ast.parse(src, mode="eval").body)
+
+
+def _ds(src):
+    return ast.dump(ast.parse(src).body[0])
+
+
+class _Caching:
+    """symbolic execution of `Solver.__init__`; env: python local -> (lean term, type) with types
+    sym (x) | quad | aff | vec | rat | mat | nat | cachedict"""
+
+    def __init__(self):
+        self.lets = 0
+
+    def v(self, name):
+        return "v_" + name
+
+    def expr(self, node, env, in_cache):
+        d = ast.dump(node)
+        if isinstance(node, ast.Name):
+            if node.id in env:
+                return env[node.id]
+            raise TranslationError("CachingQPSol: unknown name " + node.id)
+        if isinstance(node, ast.Subscript) and isinstance(node.value, ast.Name) and node.value.id == "cache" \
+                and isinstance(node.slice, ast.Constant):
+            if not in_cache:
+                raise TranslationError("CachingQPSol: cache[..] read outside `if cache:`")
+            if node.slice.value == "A":
+                return ("ch.A", "mat")
+            if node.slice.value == "b":
+                return ("ch.b", "vec")
+            raise TranslationError("CachingQPSol: unknown cache key %r" % node.slice.value)
+        if isinstance(node, ast.Subscript) and isinstance(node.slice, ast.Slice) and node.slice.upper is None \
+                and node.slice.step is None and node.slice.lower is not None:
+            (a, ta), (k, tk) = self.expr(node.value, env, in_cache), self.expr(node.slice.lower, env, in_cache)
+            if ta == "aff" and tk == "nat":
+                return ("(%s.drop %s)" % (a, k), "aff")
+            raise TranslationError("CachingQPSol: unsupported slice " + d[:100])
+        if isinstance(node, ast.Call) and isinstance(node.func, ast.Attribute):
+            fn = node.func
+            # X.size1() / X.size2()
+            if fn.attr in ("size1", "size2") and not node.args and not node.keywords:
+                a, ta = self.expr(fn.value, env, in_cache)
+                if ta == "mat":
+                    return ("%s.rows.length" % a if fn.attr == "size1" else "%s.ncol" % a, "nat")
+                if ta == "aff" and fn.attr == "size1":
+                    return ("%s.length" % a, "nat")
+                if ta == "sym" and fn.attr == "size1":
+                    return (a, "nat")
+                raise TranslationError("CachingQPSol: unsupported size query " + d[:100])
+            if isinstance(fn.value, ast.Name) and fn.value.id == "ca" and not node.keywords:
+                args = node.args
+                if fn.attr == "gradient" and len(args) == 2:
+                    (a, ta), (x, tx) = self.expr(args[0], env, in_cache), self.expr(args[1], env, in_cache)
+                    if ta == "quad" and tx == "sym":
+                        return ("(C17.gradient %s %s)" % (x, a), "aff")
+                if fn.attr == "substitute" and len(args) == 3:
+                    (a, ta), (x, tx) = self.expr(args[0], env, in_cache), self.expr(args[1], env, in_cache)
+                    z = args[2]
+                    zero_ok = (isinstance(z, ast.Call) and ast.dump(z.func) == _d("ca.DM.zeros") and len(z.args) == 1
+                               and isinstance(z.args[0], ast.Call) and isinstance(z.args[0].func, ast.Attribute)
+                               and z.args[0].func.attr == "sparsity" and not z.args[0].args
+                               and self.expr(z.args[0].func.value, env, in_cache) == (x, "sym"))
+                    if tx == "sym" and zero_ok:
+                        if ta == "aff":
+                            return ("(C17.affAtZero %s)" % a, "vec")
+                        if ta == "quad":
+                            return ("(C17.quadAtZero %s)" % a, "rat")
+                if fn.attr == "jacobian" and len(args) in (2, 3):
+                    (a, ta), (x, tx) = self.expr(args[0], env, in_cache), self.expr(args[1], env, in_cache)
+                    if len(args) == 3 and ast.dump(args[2]) != _d('{"symmetric": True}'):
+                        raise TranslationError("CachingQPSol: unsupported jacobian options")
+                    if ta == "aff" and tx == "sym":
+                        return ("(C17.jacobian %s %s)" % (x, a), "mat")
+                if fn.attr == "vertcat" and len(args) == 2:
+                    (a, ta), (b, tb) = self.expr(args[0], env, in_cache), self.expr(args[1], env, in_cache)
+                    if ta == tb == "vec":
+                        return ("(C17.vcatVec %s %s)" % (a, b), "vec")
+                    if ta == tb == "mat":
+                        return ("(C17.vcatMat %s %s)" % (a, b), "mat")
+        raise TranslationError("CachingQPSol: unsupported expression " + d[:160])
+
+    def is_expand_if(self, st, env):
+        """`if expand: F = ca.Function("f", [x_mx], [E]).expand(); E = F(x)` -> name of E"""
+        if not (isinstance(st, ast.If) and isinstance(st.test, ast.Name) and st.test.id == "expand"
+                and not st.orelse and len(st.body) == 2 and "expand" in env and "x_mx" in env):
+            return None
+        a, b = st.body
+        if not (isinstance(a, ast.Assign) and len(a.targets) == 1 and isinstance(a.targets[0], ast.Name)
+                and isinstance(b, ast.Assign) and len(b.targets) == 1 and isinstance(b.targets[0], ast.Name)):
+            return None
+        fname, e = a.targets[0].id, b.targets[0].id
+        if e not in env or env[e][1] not in ("quad", "aff"):
+            return None
+        xname = next((k for k, v in env.items() if v[1] == "sym"), None)
+        if ast.dump(a.value) == _d('ca.Function("f", [x_mx], [%s]).expand()' % e) \
+                and ast.dump(b.value) == _d("%s(%s)" % (fname, xname)):
+            return e
+        return None
+
+    def block(self, stmts, env, in_cache, tail, ind):
+        """returns Lean text for the statements followed by `tail(env)`"""
+        pad = "  " * ind
+        if not stmts:
+            return tail(env, ind)
+        st, rest = stmts[0], stmts[1:]
+        if isinstance(st, ast.Expr) and isinstance(st.value, ast.Constant):
+            return self.block(rest, env, in_cache, tail, ind)
+        # nlp[...] reads
+        if isinstance(st, ast.Assign) and len(st.targets) == 1 and isinstance(st.targets[0], ast.Name):
+            tg = st.targets[0].id
+            for key, term, ty in (("x", "p.n", "sym"), ("f", "p.f", "quad"), ("g", "p.g", "aff")):
+                if ast.dump(st.value) == _d('nlp["%s"]' % key):
+                    env = dict(env)
+                    env[tg] = (self.v(tg), ty)
+                    return "%slet %s := %s\n" % (pad, self.v(tg), term) + self.block(rest, env, in_cache, tail, ind)
+            val, ty = self.expr(st.value, env, in_cache)
+            env = dict(env)
+            env[tg] = (self.v(tg), ty)
+            return "%slet %s := %s\n" % (pad, self.v(tg), val) + self.block(rest, env, in_cache, tail, ind)
+        if isinstance(st, ast.If):
+            # MX -> SX re-expression: no model term
+            if ast.dump(st.test) == _d("isinstance(x, ca.MX)"):
+                body = sorted(ast.dump(b) for b in st.body)
+                orelse = sorted(ast.dump(b) for b in st.orelse)
+                want_b = sorted([_ds('x = ca.SX.sym("X", *x.shape)'), _ds('x_mx = nlp["x"]'), _ds("expand = True")])
+                want_e = sorted([_ds("x_mx = None"), _ds("expand = False")])
+                if body != want_b or orelse != want_e or "x" not in env or env["x"][1] != "sym":
+                    raise TranslationError("CachingQPSol: unexpected MX/SX re-expression block")
+                env = dict(env)
+                env["expand"] = ("", "flag")
+                env["x_mx"] = ("", "mx")
+                return self.block(rest, env, in_cache, tail, ind)
+            e = self.is_expand_if(st, env)
+            if e is not None:
+                return self.block(rest, env, in_cache, tail, ind)
+            if isinstance(st.test, ast.Name) and st.test.id == "cache":
+                if in_cache is not None:
+                    raise TranslationError("CachingQPSol: nested `if cache:`")
+                a = self.block(st.body + rest, env, True, tail, ind + 1)
+                b = self.block(st.orelse + rest, env, False, tail, ind + 1)
+                return "%smatch cache with\n%s| some ch =>\n%s%s| none =>\n%s" % (pad, pad, a, pad, b)
+            # guard: if not A == B: raise Exception(..)
+            t = st.test
+            if isinstance(t, ast.UnaryOp) and isinstance(t.op, ast.Not) and isinstance(t.operand, ast.Compare) \
+                    and len(t.operand.ops) == 1 and isinstance(t.operand.ops[0], ast.Eq) and not st.orelse \
+                    and len(st.body) == 1 and isinstance(st.body[0], ast.Raise):
+                (a, ta) = self.expr(t.operand.left, env, in_cache)
+                (b, tb) = self.expr(t.operand.comparators[0], env, in_cache)
+                if ta == tb == "nat":
+                    return ('%sif !(%s == %s) then .error "Number of variables does not match cached constraint matrix '
+                            'dimensions"\n%selse\n' % (pad, a, b, pad)) + self.block(rest, env, in_cache, tail, ind + 1)
+            if isinstance(t, ast.Compare) and len(t.ops) == 1 and isinstance(t.ops[0], ast.Eq) and st.orelse:
+                (a, ta) = self.expr(t.left, env, in_cache)
+                (b, tb) = self.expr(t.comparators[0], env, in_cache)
+                if ta == tb == "nat":
+                    x = self.block(st.body + rest, env, in_cache, tail, ind + 1)
+                    y = self.block(st.orelse + rest, env, in_cache, tail, ind + 1)
+                    return "%sif %s == %s then\n%s%selse\n%s" % (pad, a, b, x, pad, y)
+            raise TranslationError("CachingQPSol: unsupported branch " + ast.dump(st.test)[:120])
+        # stores and the solver object: collected by the tail
+        return self.block(rest, self.store(st, env, in_cache), in_cache, tail, ind)
+
+    def store(self, st, env, in_cache):
+        env = dict(env)
+        out = dict(env.get("@out", {}))
+        env["@out"] = out
+        if isinstance(st, ast.Assign) and len(st.targets) == 1:
+            tg = st.targets[0]
+            dm = st.value
+            inner = dm.args[0] if (isinstance(dm, ast.Call) and ast.dump(dm.func) == _d("ca.DM") and len(dm.args) == 1
+                                   and not dm.keywords) else None
+            if isinstance(tg, ast.Subscript) and isinstance(tg.value, ast.Name) and tg.value.id == "cache" \
+                    and isinstance(tg.slice, ast.Constant) and tg.slice.value in ("A", "b"):
+                if in_cache is None:
+                    raise TranslationError("CachingQPSol: cache store before the `if cache:` decision")
+                val, ty = self.expr(st.value, env, in_cache)
+                if ty != {"A": "mat", "b": "vec"}[tg.slice.value] or ("cache", tg.slice.value) in out:
+                    raise TranslationError("CachingQPSol: cache[%r] store of the wrong kind / twice" % tg.slice.value)
+                out[("cache", tg.slice.value)] = val
+                return env
+            if isinstance(tg, ast.Attribute) and isinstance(tg.value, ast.Name) and tg.value.id == "self":
+                if tg.attr == "_solver_in" and isinstance(st.value, ast.Dict) and not st.value.keys:
+                    if any(k[0] == "sin" for k in out):
+                        raise TranslationError("CachingQPSol: _solver_in re-created after entries were set")
+                    out[("sin0",)] = True
+                    return env
+                if tg.attr in ("_b", "_f0") and inner is not None:
+                    val, ty = self.expr(inner, env, in_cache)
+                    if ty != {"_b": "vec", "_f0": "rat"}[tg.attr] or ("attr", tg.attr) in out:
+                        raise TranslationError("CachingQPSol: self.%s of the wrong kind / twice" % tg.attr)
+                    out[("attr", tg.attr)] = val
+                    return env
+                if tg.attr == "_solver":
+                    c = st.value
+                    if isinstance(c, ast.Call) and ast.dump(c.func) == _d("ca.conic") and len(c.args) == 4 \
+                            and not c.keywords and isinstance(c.args[1], ast.Name) and c.args[1].id == "solver_name" \
+                            and isinstance(c.args[3], ast.Name) and c.args[3].id == "options" \
+                            and isinstance(c.args[2], ast.Dict) \
+                            and sorted(getattr(k, "value", None) for k in c.args[2].keys) == ["a", "h"]:
+                        for k, vnode in zip(c.args[2].keys, c.args[2].values):
+                            if not (isinstance(vnode, ast.Call) and isinstance(vnode.func, ast.Attribute)
+                                    and vnode.func.attr == "sparsity" and not vnode.args):
+                                raise TranslationError("CachingQPSol: conic structure entry is not a sparsity()")
+                            val, ty = self.expr(vnode.func.value, env, in_cache)
+                            if ty != "mat":
+                                raise TranslationError("CachingQPSol: conic structure entry is not a matrix")
+                            out[("pattern", k.value)] = val
+                        return env
+            if isinstance(tg, ast.Subscript) and ast.dump(tg.value) == _d("self._solver_in") \
+                    and isinstance(tg.slice, ast.Constant) and tg.slice.value in ("h", "g", "a") and inner is not None:
+                if ("sin0",) not in out:
+                    raise TranslationError("CachingQPSol: _solver_in used before it is created")
+                val, ty = self.expr(inner, env, in_cache)
+                if ty != {"h": "mat", "g": "vec", "a": "mat"}[tg.slice.value] or ("sin", tg.slice.value) in out:
+                    raise TranslationError("CachingQPSol: _solver_in[%r] of the wrong kind / twice" % tg.slice.value)
+                out[("sin", tg.slice.value)] = val
+                return env
+        raise TranslationError("CachingQPSol.Solver.__init__: unsupported statement " + ast.dump(st)[:140])
+
+    def tail(self, env, ind):
+        out = env.get("@out", {})
+        need = [("cache", "A"), ("cache", "b"), ("sin0",), ("sin", "h"), ("sin", "g"), ("sin", "a"), ("attr", "_b"),
+                ("attr", "_f0"), ("pattern", "h"), ("pattern", "a")]
+        miss = [k for k in need if k not in out]
+        if miss:
+            raise TranslationError("CachingQPSol.Solver.__init__: missing " + ", ".join("/".join(k) for k in miss))
+        for k in ("h", "a"):
+            if out[("pattern", k)] != out[("sin", k)]:
+                raise TranslationError("CachingQPSol: the conic solver is created for the sparsity of another matrix "
+                                       "than the one passed as %r" % k)
+        pad = "  " * ind
+        return ("%sExcept.ok ({ sin := { h := some %s, g := some %s, a := some %s }, b := %s, f0 := %s },\n"
+                "%s           { A := %s, b := %s })\n"
+                % (pad, out[("sin", "h")], out[("sin", "g")], out[("sin", "a")], out[("attr", "_b")],
+                   out[("attr", "_f0")], pad, out[("cache", "A")], out[("cache", "b")]))
+
+
+def _caching():
+    tree = _tree("single_pass_goal_programming_mixin.py")
+    outer_init = _find_method(tree, "CachingQPSol", "__init__")
+    body = [st for st in outer_init.body if not (isinstance(st, ast.Expr) and isinstance(st.value, ast.Constant))]
+    if [ast.dump(st) for st in body] != [_ds("self._tlcache = {}")]:
+        raise TranslationError("CachingQPSol.__init__ is not `self._tlcache = {}`")
+    outer_call = _find_method(tree, "CachingQPSol", "__call__")
+    if [a.arg for a in outer_call.args.args] != ["self", "name", "solver_name", "nlp", "options"]:
+        raise TranslationError("CachingQPSol.__call__: unexpected signature")
+    ob = [st for st in outer_call.body if not (isinstance(st, ast.Expr) and isinstance(st.value, ast.Constant))]
+    if not (len(ob) == 2 and isinstance(ob[0], ast.ClassDef) and ob[0].name == "Solver"
+            and isinstance(ob[1], ast.Return) and ob[1].value is not None
+            and ast.dump(ob[1].value) == _d("Solver()")):
+        raise TranslationError("CachingQPSol.__call__ is not `class Solver: ..; return Solver()`")
+    scls = ob[0]
+    meths = {m.name: m for m in scls.body if isinstance(m, ast.FunctionDef)}
+    if set(meths) != {"__init__", "__call__", "stats"}:
+        raise TranslationError("CachingQPSol.Solver: unexpected methods %s" % sorted(meths))
+    init = meths["__init__"]
+    names = [a.arg for a in init.args.args]
+    defaults = dict(zip(names[len(names) - len(init.args.defaults):], init.args.defaults))
+    if names != ["self", "nlp", "solver_name", "options", "cache"] \
+            or ast.dump(defaults.get("cache", ast.Constant(value=None))) != _d("self._tlcache") \
+            or any(ast.dump(defaults.get(k, ast.Constant(value=None))) != _d(k) for k in ("nlp", "solver_name", "options")):
+        raise TranslationError("CachingQPSol.Solver.__init__: unexpected signature / defaults")
+    C = _Caching()
+    construct = C.block(init.body, {}, None, C.tail, 1)
+    # --- __call__
+    call = meths["__call__"]
+    cargs = [a.arg for a in call.args.args]
+    if cargs != ["self", "x0", "lbx", "ubx", "lbg", "ubg"] or call.args.defaults:
+        raise TranslationError("CachingQPSol.Solver.__call__: unexpected signature")
+    aty = {"x0": "vec", "lbx": "bvec", "ubx": "bvec", "lbg": "bvec", "ubg": "bvec"}
+    kty = {"x0": "vec", "lbx": "bvec", "ubx": "bvec", "lba": "bvec", "uba": "bvec"}
+    sets, guards = [], []
+    report = None
+    state = 0  # 0: filling the dict, 1: back-end called, 2: f stored, 3: returned
+    for st in call.body:
+        if isinstance(st, ast.Expr) and isinstance(st.value, ast.Constant):
+            continue
+        if state == 0 and isinstance(st, ast.Assign) and len(st.targets) == 1 and isinstance(st.targets[0], ast.Subscript) \
+                and ast.dump(st.targets[0].value) == _d("self._solver_in") \
+                and isinstance(st.targets[0].slice, ast.Constant) and st.targets[0].slice.value in kty:
+            key = st.targets[0].slice.value
+            if any(k == key for k, _ in sets):
+                raise TranslationError("CachingQPSol.Solver.__call__: %r set twice" % key)
+            v = st.value
+            if isinstance(v, ast.Name) and v.id in aty:
+                term, ty = "i.%s" % v.id, aty[v.id]
+            elif isinstance(v, ast.BinOp) and isinstance(v.op, ast.Sub) and isinstance(v.left, ast.Name) \
+                    and v.left.id in aty and aty[v.left.id] == "bvec" and ast.dump(v.right) == _d("self._b"):
+                term, ty = "(C17.subVec i.%s s.b)" % v.left.id, "bvec"
+                guards.append("i.%s.length == s.b.length" % v.left.id)
+            else:
+                raise TranslationError("CachingQPSol.Solver.__call__: unsupported value for %r: %s"
+                                       % (key, ast.dump(v)[:100]))
+            if ty != kty[key]:
+                raise TranslationError("CachingQPSol.Solver.__call__: %r gets a value of the wrong kind" % key)
+            sets.append((key, term))
+            continue
+        if state == 0 and ast.dump(st) == _ds("solver_out = self._solver(**self._solver_in)"):
+            state = 1
+            continue
+        if state == 1 and isinstance(st, ast.Assign) and len(st.targets) == 1 \
+                and ast.dump(st.targets[0]) == ast.dump(ast.parse('solver_out["f"] = 0').body[0].targets[0]):
+            def leaf(node):
+                if ast.dump(node) == _d('solver_out["cost"]'):
+                    return "cost"
+                if ast.dump(node) == _d("self._f0"):
+                    return "s.f0"
+                return None
+            report = _Arith(leaf).expr(st.value)
+            state = 2
+            continue
+        if state == 2 and ast.dump(st) == _ds("return solver_out"):
+            state = 3
+            continue
+        raise TranslationError("CachingQPSol.Solver.__call__: unsupported statement " + ast.dump(st)[:140])
+    if state != 3 or report is None:
+        raise TranslationError("CachingQPSol.Solver.__call__: back-end call / objective / return not found")
+    if sorted(k for k, _ in sets) != sorted(kty):
+        raise TranslationError("CachingQPSol.Solver.__call__ does not set exactly x0, lbx, ubx, lba, uba")
+    guard = " && ".join(sorted(set(guards))) or "true"
+    updates = "\n".join("    let d := { d with %s := some %s }" % kv for kv in sets)
+    text = """import RtcVerif.Model.C17Caching
+/-! GENERATED by harness/translate_c17.py from single_pass_goal_programming_mixin.py, class `CachingQPSol`
+(`__init__`, the inner `Solver.__init__` and `Solver.__call__`).  Do not edit. -/
+set_option linter.unusedTactic false
+set_option linter.unreachableTactic false
+namespace RtcVerif.Gen
+open RtcVerif
+
+/-- `CachingQPSol.__init__`: `self._tlcache = {}` -/
+def cachingInitGen : Option C17.Cache := none
+
+theorem cachingInitGen_eq_model : cachingInitGen = (none : Option C17.Cache) := rfl
+
+/-- `Solver.__init__` -/
+def cachingConstructGen (cache : Option C17.Cache) (p : C17.NLP) : Except String (C17.SolverObj × C17.Cache) :=
+%s
+theorem cachingConstructGen_eq_model (cache : Option C17.Cache) (p : C17.NLP) :
+    cachingConstructGen cache p = C17.construct cache p := by
+  first
+    | rfl
+    | (cases cache <;> first | rfl | (unfold cachingConstructGen C17.construct; simp only []; split <;> rfl))
+
+/-- `Solver.__call__` up to `self._solver(**self._solver_in)` -/
+def cachingCallGen (s : C17.SolverObj) (d : C17.SolverIn) (i : C17.CallIn) : Except String C17.SolverIn :=
+  if !(%s) then .error "Dimension mismatch"
+  else
+%s
+    .ok d
+
+theorem cachingCallGen_eq_model (s : C17.SolverObj) (d : C17.SolverIn) (i : C17.CallIn) :
+    cachingCallGen s d i = C17.call s d i := by
+  first | rfl | (unfold cachingCallGen C17.call; split <;> rfl)
+
+/-- `solver_out["f"]` -/
+def cachingReportGen (s : C17.SolverObj) (cost : Rat) : Rat := %s
+
+theorem cachingReportGen_eq_model (s : C17.SolverObj) (cost : Rat) : cachingReportGen s cost = C17.report s cost := by
+  first | rfl | (unfold cachingReportGen C17.report; ring)
+
+end RtcVerif.Gen
+""" % (construct, guard, updates, report)
+    if "ring" in text and "Mathlib.Tactic.Ring" not in text:
+        text = text.replace("import RtcVerif.Model.C17Caching\n",
+                            "import RtcVerif.Model.C17Caching\nimport Mathlib.Algebra.Order.Field.Rat\nimport Mathlib.Tactic.Ring\n", 1)
+    _write("C17Caching", text)
+    return ("RtcVerif.Gen.C17Caching", "RtcVerif.Gen",
+            ["cachingInitGen_eq_model", "cachingConstructGen_eq_model", "cachingCallGen_eq_model",
+             "cachingReportGen_eq_model"])
+
+
+def gen_caching(c):
+    """(re)generate lean/RtcVerif/Gen/C17Caching.lean; returns the extra obligation spec for c.prove ([] + a broken
+    entry if the source is outside the table)"""
+    try:
+        return [_caching()]
+    except (TranslationError, OSError, SyntaxError, AttributeError, IndexError, KeyError) as e:
+        c.broken.append(("translator: CachingQPSol", "%s: %s" % (type(e).__name__, e)))
+        return []
+
+
+# ---------------------------------------------------------------------------------------------
+# reading point of the options of the retained objective row
+
+
+def _loop_with(fn, needle):
+    loops = [n for n in fn.body if isinstance(n, ast.For) and needle in ast.dump(n)]
+    if len(loops) != 1:
+        raise TranslationError("%s: loop over the priorities not found" % fn.name)
+    return loops[0]
+
+
+def _index(body, pred, what):
+    idx = [i for i, st in enumerate(body) if pred(st)]
+    if len(idx) != 1:
+        raise TranslationError("reading point: expected exactly one top-level statement `%s` in the priority loop, "
+                               "found %d" % (what, len(idx)))
+    return idx[0]
+
+
+def _uses_opts(fn, name):
+    """both options are subscripted from the local `name`"""
+    keys = {n.slice.value for n in ast.walk(fn) if isinstance(n, ast.Subscript) and isinstance(n.value, ast.Name)
+            and n.value.id == name and isinstance(n.slice, ast.Constant)}
+    return {"fix_minimized_values", "constraint_relaxation"} <= keys
+
+
+def _optread():
+    # --- single pass
+    tree = _tree("single_pass_goal_programming_mixin.py")
+    opt = _find_method(tree, "SinglePassGoalProgrammingMixin", "optimize")
+    loop = _loop_with(opt, "priority_started")
+    body = loop.body
+    i_start = _index(body, lambda st: ast.dump(st) == _ds("self.priority_started(priority)"), "self.priority_started(priority)")
+    i_solve = _index(body, lambda st: isinstance(st, ast.Assign) and "super" in ast.dump(st.value)
+                     and isinstance(st.value, ast.Call) and isinstance(st.value.func, ast.Attribute)
+                     and st.value.func.attr == "optimize", "success = super().optimize(..)")
+    i_done = _index(body, lambda st: ast.dump(st) == _ds("self.priority_completed(priority)"),
+                    "self.priority_completed(priority)")
+    tr = _find_method(tree, "SinglePassGoalProgrammingMixin", "transcribe")
+    ifs = [n for n in ast.walk(tr) if isinstance(n, ast.If) and ast.dump(n.test) == _d("self.__current_priority > 0")
+           and any(isinstance(x, ast.Subscript) and isinstance(x.slice, ast.Constant)
+                   and x.slice.value == "constraint_relaxation" for x in ast.walk(n))]
+    if len(ifs) != 1:
+        raise TranslationError("transcribe: block adding the objective constraint of the previous priority not found")
+    src = [st for st in ifs[0].body if isinstance(st, ast.Assign) and len(st.targets) == 1
+           and isinstance(st.targets[0], ast.Name) and st.targets[0].id == "options"]
+    if len(src) != 1 or not _uses_opts(ifs[0], "options"):
+        raise TranslationError("transcribe: the options of the objective constraint are not read from one local `options`")
+    if any(isinstance(n, ast.Call) and isinstance(n.func, ast.Attribute) and n.func.attr == "goal_programming_options"
+           for st in ifs[0].body for n in ast.walk(st)) and ast.dump(src[0].value) != _d("self.goal_programming_options()"):
+        raise TranslationError("transcribe: goal_programming_options() used besides the local `options`")
+    snaps = [i for i, st in enumerate(body) if isinstance(st, ast.Assign) and len(st.targets) == 1
+             and ast.dump(st.targets[0]) == ast.dump(ast.parse("self.__objective_constraint_options = 0").body[0].targets[0])]
+    if ast.dump(src[0].value) == _d("self.goal_programming_options()"):
+        sp = ".nextPriority"  # transcribe of priority k runs after priority_started(k), for the row of k-1
+    elif ast.dump(src[0].value) == _d("self.__objective_constraint_options"):
+        if len(snaps) != 1:
+            raise TranslationError("optimize: expected one top-level store of self.__objective_constraint_options in "
+                                   "the priority loop, found %d" % len(snaps))
+        i_snap = snaps[0]
+        want = _ds('self.__objective_constraint_options = {k: v for k, v in options.items() '
+                   'if k in {"fix_minimized_values", "constraint_relaxation"}}')
+        alt = _ds('self.__objective_constraint_options = {k: v for k, v in options.items() '
+                  'if k in {"constraint_relaxation", "fix_minimized_values"}}')
+        if ast.dump(body[i_snap]) not in (want, alt):
+            raise TranslationError("optimize: unsupported form of the options snapshot")
+        reads = [i for i, st in enumerate(body) if ast.dump(st) == _ds("options = self.goal_programming_options()")]
+        reads = [i for i in reads if i < i_snap]
+        if not reads:
+            raise TranslationError("optimize: `options = self.goal_programming_options()` before the snapshot not found")
+        i_read = reads[-1]
+        if any(isinstance(st, ast.Assign) and any(isinstance(t, ast.Name) and t.id == "options" for t in st.targets)
+               for st in body[i_read + 1:i_snap]):
+            raise TranslationError("optimize: `options` re-assigned between the read and the snapshot")
+        # the read happens while the row's own priority is active: after its priority_started and its solve,
+        # in the same iteration (hence before the next priority_started)
+        if i_start < i_solve < i_read < i_snap:
+            sp = ".ownPriority"
+        elif i_read < i_start:
+            raise TranslationError("optimize: options snapshot taken before priority_started (previous priority's "
+                                   "options): outside the table")
+        else:
+            raise TranslationError("optimize: options snapshot not between the solve and the end of the loop body")
+        _ = i_done
+    else:
+        raise TranslationError("transcribe: unsupported source of the objective-constraint options: "
+                               + ast.dump(src[0].value)[:100])
+    # --- keep-soft multi-pass
+    gtree = _tree("goal_programming_mixin.py")
+    gopt = _find_method(gtree, "GoalProgrammingMixin", "optimize")
+    gloop = _loop_with(gopt, "priority_started")
+    gbody = gloop.body
+    g_start = _index(gbody, lambda st: ast.dump(st) == _ds("self.priority_started(priority)"),
+                     "self.priority_started(priority)")
+    g_add = [i for i, st in enumerate(gbody) if "__add_subproblem_objective_constraint" in ast.dump(st)]
+    if len(g_add) != 1:
+        raise TranslationError("GoalProgrammingMixin.optimize: call of __add_subproblem_objective_constraint not found "
+                               "once at the top level of the priority loop")
+    calls = [n for n in ast.walk(gbody[g_add[0]]) if isinstance(n, ast.Call) and isinstance(n.func, ast.Attribute)
+             and n.func.attr.endswith("__add_subproblem_objective_constraint")]
+    if len(calls) != 1 or calls[0].args or calls[0].keywords:
+        raise TranslationError("GoalProgrammingMixin.optimize: unexpected call of __add_subproblem_objective_constraint")
+    add = _find_method(gtree, "GoalProgrammingMixin", "__add_subproblem_objective_constraint")
+    asg = [st for st in add.body if isinstance(st, ast.Assign) and len(st.targets) == 1
+           and isinstance(st.targets[0], ast.Name) and st.targets[0].id == "options"]
+    if len(asg) != 1 or ast.dump(asg[0].value) != _d("self.goal_programming_options()") or not _uses_opts(add, "options"):
+        raise TranslationError("__add_subproblem_objective_constraint does not read its two options from "
+                               "`options = self.goal_programming_options()`")
+    if not g_start < g_add[0]:
+        raise TranslationError("GoalProgrammingMixin.optimize: objective constraint added before priority_started")
+    ks = ".ownPriority"
+    text = """import RtcVerif.Model.C17Code
+/-! GENERATED by harness/translate_c17.py from `SinglePassGoalProgrammingMixin.optimize` / `transcribe` and
+`GoalProgrammingMixin.optimize` / `__add_subproblem_objective_constraint`: the point at which the options of the
+retained objective row of a priority are read.  Do not edit. -/
+namespace RtcVerif.Gen
+open RtcVerif
+
+def singlePassOptReadGen : C17.OptRead := %s
+def keepSoftOptReadGen : C17.OptRead := %s
+
+theorem singlePassOptReadGen_eq_model : singlePassOptReadGen = C17.singlePassOptRead := by decide
+theorem keepSoftOptReadGen_eq_model : keepSoftOptReadGen = C17.keepSoftOptRead := by decide
+
+end RtcVerif.Gen
+""" % (sp, ks)
+    _write("C17OptRead", text)
+    return ("RtcVerif.Gen.C17OptRead", "RtcVerif.Gen", ["singlePassOptReadGen_eq_model", "keepSoftOptReadGen_eq_model"])
+
+
+def gen_optread(c):
+    """(re)generate lean/RtcVerif/Gen/C17OptRead.lean; returns the extra obligation spec for c.prove"""
+    try:
+        return [_optread()]
+    except (TranslationError, OSError, SyntaxError, AttributeError, IndexError, KeyError) as e:
+        c.broken.append(("translator: objective-row option reading point", "%s: %s" % (type(e).__name__, e)))
+        return []
 
 
 PIECES = [("_ConvertedMinAbsGoal / __convert_goals", _minabs),
